@@ -155,11 +155,45 @@ theorem C20_handler_census :
   decide +kernel
 
 /-- generated-table obligation (site census): the functions that contain a lock acquisition and are reached
-by no request program are exactly the reviewed constructors / restore code / test-only accessors -/
+by no request program are exactly the reviewed constructors / restore code / test-only accessors
+(`provider::new` — the constructor of the commitment-point provider, which locks the new slot — is reached from
+`setup_channel` since the call-graph resolution follows `ChannelCommitmentPointProvider::new`) -/
 theorem C20_site_census :
     unreachedSites = ["monitor::add_funding", "monitor::closing_depth", "monitor::funding_depth",
       "monitor::funding_double_spent_depth", "monitor::new_from_persistence", "node::maybe_sync_persister",
-      "node::new_from_persistence", "node::restore_node", "provider::new"] := by rfl
+      "node::new_from_persistence", "node::restore_node"] := by rfl
+
+/-- generated-table obligation (call census — lock scopes taken through helper functions): the calls in scanned
+bodies that the call-graph resolution does NOT follow although a function of that NAME in the scanned files takes
+a lock are exactly these thirty reviewed ones: the `Approve` delegate chain (trait object, trusted base), constructors
+and restore code, same-name dispatch (`ChannelSlot::chaninfo`), same-name methods of the guarded data
+(`State::is_done` behind `ChainMonitorBase::is_done`), the factory's own `policy`, the closure parameter of
+`ChainTracker::do_push`, and `do_handle` (split into its arms).  In particular NO call on a validator object
+(`validator.x(`, `self.validator().x(`, the `inner` validator of `OnchainValidator`) is left unresolved: the validators
+reach `Node::allowlist_contains` / `can_spend` (node_state) through their `wallet` argument while the slot is held. -/
+theorem C20_call_census :
+    unresolvedCalls = ["approver: delegate.approve_invoice", "approver: delegate.approve_keysend",
+      "approver: delegate.approve_onchain", "channel: chan.chaninfo", "channel: enforcement_state.balance",
+      "channel: keys.release_commitment_secret", "channel: stub.chaninfo", "handler: InitHandler.new",
+      "handler: Node.new", "handler: Node.restore_node", "handler: self.do_handle",
+      "monitor: get_state().diagnostic", "monitor: get_state().is_done", "monitor: state.on_add_block_end",
+      "node: ChainMonitorBase.new", "node: ChainMonitorBase.new_from_persistence",
+      "node: Node.new_from_persistence", "node: Node.restore_node", "node: NodeState.new",
+      "node: channel.restore_payments", "node: validator_factory().policy", "node: validator_factory.policy",
+      "onchain_validator: SimpleValidatorFactory.new", "onchain_validator: inner_factory.policy",
+      "tracker: pl.on_block_end", "tracker: pl.on_block_start", "tracker: pl.on_transaction_end",
+      "tracker: pl.on_transaction_input", "tracker: pl.on_transaction_output",
+      "tracker: pl.on_transaction_start"] := by rfl
+
+/-- generated-table obligation: the sweep-signing arms validate their destination against the wallet/allowlist
+(node_state) while the slot is held — the edge the validator calls contribute (it was missing from these rows
+before the resolution followed calls on validator objects) -/
+theorem C20_sweep_arms_reach_node_state :
+    ∀ n ∈ ["Channel.SignDelayedPaymentToUs", "Channel.SignRemoteHtlcToUs", "Channel.SignPenaltyToUs",
+           "Root.SignAnyDelayedPaymentToUs", "Root.SignAnyRemoteHtlcToUs", "Root.SignAnyPenaltyToUs",
+           "Channel.SignMutualCloseTx2"],
+      ∃ a ∈ arms, a.1 = n ∧ (Cls.slot, Cls.nodeState) ∈ a.2 := by
+  decide +kernel
 
 /-- generated-table obligation: every lock order that a comment of the sources documents (`lock order:
 tracker -> channels -> channel -> node state`, `tracker before channels`, monitor.rs "after `self.state`") is
